@@ -50,7 +50,7 @@ static struct {
 	char *nwbase[RT_MAXT]; int wobjs[RT_MAXT][8]; int nwobjs[RT_MAXT]; int nwheap[RT_MAXT]; int nwinit[RT_MAXT];
 	waiter *wt[RT_MAXT]; int swnote[RT_MAXT], swlive[RT_MAXT]; long vgiven[RT_MAXT], vtaken[RT_MAXT];
 	int seen_notified[MAXOBJ]; int called[MAXOBJ]; int lpar[MAXOBJ]; int pending_new[RT_MAXT]; int notify_returned[MAXOBJ];
-	int ideal; int cz; nsync_mu *cmu;
+	int ideal; int cz; nsync_mu *cmu; int cfreed;
 	int *cells;          /* client data for the happens-before oracle (C03), one cell per thread */
 	int hbdata;
 } S;
@@ -119,6 +119,11 @@ static void client (void *arg) {
 				if (o->x == 1 && c2 != NULL) rt_violation ("O-crash", "nsync_counter_new returned a counter although its allocation failed");
 				if (o->x != 1 && (c2 == NULL || *(volatile uint32_t *) &c2->value != (uint32_t) o->a)) rt_violation ("O-crash", "nsync_counter_new(%d) failed or has the wrong value", o->a);
 				S.ret[t] = c2 != NULL;
+			} else if (!strcmp (o->name, "free")) {
+				/* the last user frees the counter (it has just learnt, through a wait or a zero result, that nobody else will use it) */
+				nsync_counter_free (S.c);
+				S.cfreed = 1;
+				S.ret[t] = 0;
 			} else if (!strcmp (o->name, "value")) {
 				int h0 = S.nhist, i, ok = 0; uint32_t r;
 				r = nsync_counter_value (S.c);
@@ -372,9 +377,12 @@ static int sem_of (int i) { waiter *w = (waiter *) rt_tls_waiter (i); return (w 
 static void obs (char *buf, size_t n) {
 	size_t o = 0; int i;
 	if (S.kind == K_COUNTER) {
-		o += (size_t) snprintf (buf + o, n - o, "value=%u waited=%u q=", *(volatile uint32_t *) &S.c->value, *(volatile uint32_t *) &S.c->waited);
-		o += put_owner_list (buf + o, n - o, S.c->waiters);
-		o += (size_t) snprintf (buf + o, n - o, " lockh=%d", rt_ideal_holder ? rt_ideal_holder (&S.c->counter_mu) : 0);
+		if (S.cfreed) o += (size_t) snprintf (buf + o, n - o, "value=0 waited=0 q=[] lockh=0");
+		else {
+			o += (size_t) snprintf (buf + o, n - o, "value=%u waited=%u q=", *(volatile uint32_t *) &S.c->value, *(volatile uint32_t *) &S.c->waited);
+			o += put_owner_list (buf + o, n - o, S.c->waiters);
+			o += (size_t) snprintf (buf + o, n - o, " lockh=%d", rt_ideal_holder ? rt_ideal_holder (&S.c->counter_mu) : 0);
+		}
 		PUTARR ("nww", S.nwrec[i] ? *(volatile uint32_t *) S.nwrec[i] : 0);
 		PUTARR ("sem", sem_of (i));
 		o += (size_t) snprintf (buf + o, n - o, " now=%ld", (long) (rt_now () - RT_T0));
